@@ -1,7 +1,10 @@
 CHECK = {
     "obligations": ["C15.c15_same_session", "C15.c15_cap", "C15.c15_cap_zero", "C15.c15_exhausted", "C15.c15_exhausted_inactive",
                     "C15.c15_distinct_users", "C15.gen_authorise", "C15.gen_authenticate", "C15.gen_structure",
-                    "Panel.created_spec", "Panel.joined_spec", "C15.loose_admits_cap_plus_one"],
+                    "Panel.created_spec", "Panel.joined_spec", "C15.loose_admits_cap_plus_one",
+                    "C15.gen_refused_cleanup", "C15.c15_same_session_core", "C15.c15_connection_resolves_record",
+                    "C15.c15_sibling_schedule", "C15.c15_refused_cleanup_witness", "C15.c15_cleanup_must_retire_witness",
+                    "Panel.refusedCleanup_nonempty", "Panel.refusedCleanup_terminate_spec"],
     "scenarios": ["C15"],
     "reset_ops": ["sess.new"],
     "timeout": {"quick": 300, "thorough": 1200},
@@ -11,7 +14,15 @@ CHECK = {
             "credit/expiry/cap edits, clock steps; a third of the waves with concurrent closures of other sessions. "
             "plus 5 (250) handshake scripts: 2-3 waves of 2..16 simultaneous REAL handshakes (client.DirectTLS.Handshake against dispatchConnection over "
             "in-memory connections) incl. an exhausted user that must be redirected: the key every client decrypts must be the joined session's key. "
-            "non-trivial = a wave with at least one join, refusal or second creation; distinct by (script, wave, N, mode, outcome counts)",
+            "plus the REFUSED connection as three separately scheduled steps (GetUser, GetSession refused, the dispatcher's clean-up of the user record run "
+            "through VerifRefusedCleanup = the statement this tree's dispatchConnection executes): 4 scripted schedules (refused sibling / a slot frees by a "
+            "closure of another session or by an admin edit / sibling creates / the refused one cleans up / third sibling arrives; refused first connection "
+            "on an empty record; two refused siblings) and 40 (2000) seeded schedules of 20-45 steps (admissions for 1-2 users x 3 ids with caps 0..3, pending "
+            "clean-ups at arbitrary later moments, closures of sessions that are not the user's last, cap/credit edits); at the end every attached pair is "
+            "presented once more. non-trivial = a wave with at least one join, refusal or second creation, or a schedule with at least one clean-up; "
+            "distinct by (script, wave, N, mode, outcome counts) / (schedule, clean-ups, clean-ups with a sibling session attached, terminations)",
     "assumptions": ["bbolt transactions are atomic", "one active record per user (C17's invariant; C15's generators never close a user's last session concurrently with an admission)",
-                    "most admissions are driven through GetUser/GetSession as dispatchConnection calls them (the dispatcher's CloseSession-on-refusal is C17's race and is not replayed there); the handshake part goes through dispatchConnection itself"],
+                    "most admissions are driven through GetUser/GetSession as dispatchConnection calls them; in the simultaneous waves the refused connections do not run the dispatcher's clean-up "
+                    "(it is driven step by step in the refused-connection schedules, by the statement the extractor found on the GetSession error path: Gen.Panel.refusedCleanupCall); the handshake part goes through dispatchConnection itself",
+                    "there is no schedule point between GetSession's return and the clean-up in dispatchConnection: the clean-up statement is called by the shim, not by a parked dispatcher goroutine"],
 }
